@@ -14,8 +14,8 @@ Open Scope Z_scope.
    behaviour / mask_string / nullify_mask *)
 Theorem C02_ngram_vectorizer :
   forall (matches : Z -> bool) (f32div f64div : Z -> Z -> Z) (f64to32 : Z -> Z) (one64 : Z) (prm : ngv_params)
-         (learn_cold : A.dict -> A.dict -> list (list (list Z)) -> res N.gdict)
-         (c : config Z) (td : option (dict Z)) (nd : option N.gdict) (X : list (list Z)) M train,
+         (learn_cold : KA.dict -> KA.dict -> list (list (list Z)) -> res KN.gdict)
+         (c : config Z) (td : option (dict Z)) (nd : option KN.gdict) (X : list (list Z)) M train,
   ngv_fit matches f32div f64div f64to32 one64 prm learn_cold c td nd X = Ok (M, train) ->
   ngv_fit_transform matches f32div f64div f64to32 one64 prm learn_cold c td nd X = Ok train /\
   ngv_transform matches f32div f64div f64to32 one64 prm M X = Ok train.
@@ -27,7 +27,7 @@ Print Assumptions C02_ngram_vectorizer.
 Theorem C02_ngram_vectorizer_K7 :
   forall (matches : Z -> bool) (f32div f64div : Z -> Z -> Z) (f64to32 : Z -> Z) (one64 : Z) (prm : ngv_params) M X,
   np_mask prm = None -> nv_mask_col M = None ->
-  ngv_transform matches f32div f64div f64to32 one64 prm M X = Ok (N.ng_transform (to_K7 prm M) X).
+  ngv_transform matches f32div f64div f64to32 one64 prm M X = Ok (KN.ng_transform (to_K7 prm M) X).
 Proof. exact ngv_transform_is_K7. Qed.
 Print Assumptions C02_ngram_vectorizer_K7.
 
@@ -38,11 +38,11 @@ Definition ngx_cfg : config Z :=
      min_docfreq := None; max_docfreq := None |}.
 Definition ngx_X : list (list Z) := [[1; 1; 2; 1]; [3; 1; 1]; []; [2]].      (* counts 1:5 2:2 3:1 -> 3 pruned *)
 Definition ngx_prm (n : nat) (nullify : bool) : ngv_params :=
-  {| np_size := n; np_beh := N.Exact; np_mask := Some 99; np_nullify := nullify |}.
+  {| np_size := n; np_beh := KN.Exact; np_mask := Some 99; np_nullify := nullify |}.
 (* second stage without pruning: Model/K7_Ngrams.v learn_coldict *)
-Definition ngx_learn (n : nat) (tokdict inv : A.dict) (grams : list (list (list Z))) : res N.gdict :=
-  Ok (let uniq := A.isort_by N.lex_leb (nodup (list_eq_dec Z.eq_dec) (concat grams)) in
-      combine (map (fun g => N.Tup (map (N.label_of inv) g)) uniq) (map Z.of_nat (seq 0 (length uniq)))).
+Definition ngx_learn (n : nat) (tokdict inv : KA.dict) (grams : list (list (list Z))) : res KN.gdict :=
+  Ok (let uniq := KA.isort_by KN.lex_leb (nodup (list_eq_dec Z.eq_dec) (concat grams)) in
+      combine (map (fun g => KN.Tup (map (KN.label_of inv) g)) uniq) (map Z.of_nat (seq 0 (length uniq)))).
 Notation ngx_fit n nullify :=
   (ngv_fit (fun _ => false) f32div_fl f64div_fl f64to32_fl one64_fl (ngx_prm n nullify) (ngx_learn n) ngx_cfg None None ngx_X).
 
@@ -75,7 +75,7 @@ Proof. vm_compute. repeat split; reflexivity. Qed.
 Example C02_ex_ngram_mask_bigram :
   match ngx_fit 2%nat false with
   | Ok (M, train) =>
-      nv_cold M = [(N.Tup [1; 1], 0); (N.Tup [1; 2], 1); (N.Tup [2; 1], 2); (N.Tup [99; 1], 3)] /\
+      nv_cold M = [(KN.Tup [1; 1], 0); (KN.Tup [1; 2], 1); (KN.Tup [2; 1], 2); (KN.Tup [99; 1], 3)] /\
       train = (4, 4, [(0, 0, 1); (0, 1, 1); (0, 2, 1); (1, 3, 1); (1, 0, 1)]) /\
       ngv_transform (fun _ => false) f32div_fl f64div_fl f64to32_fl one64_fl (ngx_prm 2 false) M ngx_X = Ok train
   | Err _ => False
@@ -88,8 +88,8 @@ Example C02_ex_ngram_nullify :
   match ngv_fit (fun _ => false) f32div_fl f64div_fl f64to32_fl one64_fl (ngx_prm 2 true) (ngx_learn 2) ngx_cfg None None
                 [[1; 2; 2; 1]; [2; 2; 3; 1; 1; 2; 2]] with
   | Ok (M, train) =>
-      nv_mask_col M = Some 3 /\ N.glookup (N.Tup [2; 2]) (nv_cold M) = Some 3 /\
-      A.cell (A.entries train) 0 3 = 0 /\ A.cell (A.entries train) 0 1 = 1 /\
+      nv_mask_col M = Some 3 /\ KN.glookup (KN.Tup [2; 2]) (nv_cold M) = Some 3 /\
+      KA.cell (KA.entries train) 0 3 = 0 /\ KA.cell (KA.entries train) 0 1 = 1 /\
       ngv_transform (fun _ => false) f32div_fl f64div_fl f64to32_fl one64_fl (ngx_prm 2 true) M
                     [[1; 2; 2; 1]; [2; 2; 3; 1; 1; 2; 2]] = Ok train
   | Err _ => False
